@@ -78,7 +78,7 @@ CHECKS["C13"] = dict(
    text="For corpus/bind/* and the tests/ modules (8 smallest quick / all thorough, each inside the whole tests+std program with a synthesised entry) and for rejected variants of them: every consistent rename of one local binding, every permutation (<=4) or adjacent transposition + reversal of toplevels and of class members, every expression wrapped in ( ) and in { }, every un-annotated let annotated with the inferred type, every inferred type-argument list made explicit, every un-annotated lambda parameter annotated with its inferred type (singly and all at once), every movable class split into a new module with imports both ways. Plus a generated spelling family: every hint-dependent expression tree with <=2 (quick) / <=3 (thorough) internal nodes over {generic identity call, block, applied lambda, if, match, two-argument generic call} and leaves {None, Some(1), a local} in 10 contexts incl. higher-order calls whose lambda argument matches on its parameter, each under every applicable rewrite instance; for programs the checker rejects, explicit type arguments are added only at sites whose inferred arguments are closed. The verdict must not change; accepted runnable programs must print the same lines and end the same way under refsem.",
    note="Rewrites are text edits at spans validated by C14; only bracket-balanced expression spans are wrapped; annotate/explicit-targs only where the type is closed and spellable. Rejected side: hand-mutated variants plus the generated programs the checker rejects (e.g. under-constrained ones).",
    design_ref="DESIGN.md §5 C13")
-_FAM = "Families (bounded-exhaustive source-text generators): enum type shapes (all variant-kind lists <=3 over 6/7 payload kinds incl. a struct-class payload for one class, all pairs of <=2 (quick) / <=3 (thorough) variant lists for two mutually referring classes in both declaration orders, generic instantiations; every constructor term to depth 2 shown directly, through a generic identity, through a generic struct and wrapped in / absent from a generic option enum); integer expressions of depth <=2 over + - * / % with literal and run-time operands over a 9-value alphabet incl. INT_MIN/INT_MAX (overflow and division by zero excluded by an exact evaluator); comparisons, short-circuit and operand order with side effects; closures (0-3 captures x nesting x this), method / function / builtin references incl. references whose receiver is an otherwise unused parameter, interface-bounded dispatch, call evaluation order; lambdas in generic scopes (7 capture sets x 3 lambda-parameter kinds x body uses a generic type or not x generic class method / generic function x nested or not = 144 programs); tail recursion with all 49 two-parameter update pairs and 8 three-parameter permutations, non-tail / mutual / method recursion; the self call in 12 positions relative to the value of its branch (tail, bound-then-returned, discarded-then-literal/variable, used, after a side effect, twice, nested branches, match arms) x int/bool/Str x function/method; all Vec operation sequences of length <=3 (quick) / <=4 (thorough) over 11 ops for 5 element types (one program per possibly-panicking sequence); 12 string-literal content classes as literals and as run-time-built strings (concatenation, comparison, Map keys), fromInt/toInt over the alphabet, panics with 4 message classes; struct patterns in all 6 field orders with and without `as`, nested / or / if-let / tuple patterns."
+_FAM = "Families (bounded-exhaustive source-text generators): enum type shapes (all variant-kind lists <=3 over 6/7 payload kinds incl. a struct-class payload for one class, all pairs of <=2 (quick) / <=3 (thorough) variant lists for two mutually referring classes in both declaration orders, generic instantiations; every constructor term to depth 2 shown directly, through a generic identity, through a generic struct and wrapped in / absent from a generic option enum); integer expressions of depth <=2 over + - * / % with literal and run-time operands over a 9-value alphabet incl. INT_MIN/INT_MAX (overflow and division by zero excluded by an exact evaluator); comparisons, short-circuit and operand order with side effects; closures (0-3 captures x nesting x this), method / function / builtin references incl. references whose receiver is an otherwise unused parameter, interface-bounded dispatch, call evaluation order; lambdas in generic scopes (7 capture sets x 3 lambda-parameter kinds x body uses a generic type or not x generic class method / generic function x nested or not = 144 programs); tail recursion with all 49 two-parameter update pairs and 8 three-parameter permutations, non-tail / mutual / method recursion; the self call in 12 positions relative to the value of its branch (tail, bound-then-returned, discarded-then-literal/variable, used, after a side effect, twice, nested branches, match arms) x int/bool/Str x function/method; parameters that receive a constant (4 constant types x 4 call-site agreement patterns x recursion none/unchanged/changed x first/last position x function/method = 192 programs); freshly allocated values (struct / generic struct / variant) x 9 uses (reads, passing, storing in Vec/Box/Option, capturing, identity, unused; thorough: all ordered pairs) x straight-line / branch / loop context; all Vec operation sequences of length <=3 (quick) / <=4 (thorough) over 11 ops for 5 element types (one program per possibly-panicking sequence); 12 string-literal content classes as literals and as run-time-built strings (concatenation, comparison, Map keys), fromInt/toInt over the alphabet, panics with 4 message classes; struct patterns in all 6 field orders with and without `as`, nested / or / if-let / tuple patterns."
 CHECKS["C01"] = dict(
    category="exploration",
    technique="bounded-exhaustive enumeration of program families compiled by the real pipeline and executed on V8; oracle: reference interpreter of the checked source AST (specification semantics)",
@@ -88,7 +88,7 @@ CHECKS["C01"] = dict(
 CHECKS["C02"] = dict(
    category="exploration",
    technique="bounded-exhaustive enumeration of programs x optimiser pipelines (every on/off configuration, every pass alone and after CCP, via hook H1) on the real optimiser; differential oracle: an MIR interpreter run on the unoptimised vs the optimised MIR",
-   text="Loop family: complete product of 12 guard forms (i<B, i<=B, i>B, i>=B, i!=B, mirrored forms, i*2<B, i+1<B) x strides {1,2,-1,1e9} (quick) / {1,2,3,-1,-2,+-1e9} (thorough) x 10/13 updates (accumulating, derived i*3 / i*3+1 / i*-2, printing, overwriting) x 2/4 results x 3/7 literal bounds incl. INT_MAX neighbourhood x both counter names, each called with every start around the bound (and two starts whose derived value i*3 wraps) from literal and run-time arguments; plus an operand-order family (9 operators x 10 inner forms `x +- c` x constant left/right x 5 constants x 9 run-time values, inline and let-bound), an inline-permutation family (a small callee called with all 27 argument tuples over the caller's identically named parameters, functions and methods), and the C01 program families (every 8th program quick / all thorough). Each program is lowered by the real pipeline and pushed through 8 (quick) / all 32 (thorough) optimiser configurations and each of the 8 passes alone and after CCP; the optimised MIR must print the same lines and end the same way as the unoptimised MIR under mirsem, with 16x the fuel (introduced non-termination is a violation), must keep main, and the optimiser must not panic. Runs whose unoptimised execution overflows i32 in + - * are dropped (left open by the language). Sub-pass firing counters (LICM, algebraic, IV elimination, strength reduction) are reported; all fire in both tiers.",
+   text="Loop family: complete product of 12 guard forms (i<B, i<=B, i>B, i>=B, i!=B, mirrored forms, i*2<B, i+1<B) x strides {1,2,-1,1e9} (quick) / {1,2,3,-1,-2,+-1e9} (thorough) x 10/13 updates (accumulating, derived i*3 / i*3+1 / i*-2, printing, overwriting) x 2/4 results x 3/7 literal bounds incl. INT_MAX neighbourhood x both counter names, each called with every start around the bound (and two starts whose derived value i*3 wraps) from literal and run-time arguments; plus an operand-order family (9 operators x 10 inner forms `x +- c` x constant left/right x 5 constants x 9 run-time values, inline and let-bound), an inline-permutation family (a small callee called with all 27 argument tuples over the caller's identically named parameters, functions and methods), a dead-effect family (9 unused but possibly trapping or printing computations - division / modulo by a run-time zero, INT_MIN / -1, printing and panicking calls, out-of-bounds Vec access - x straight-line / taken branch / untaken branch / loop body / function value), and the C01 program families (every 8th program of the three largest families quick / all thorough). Each program is lowered by the real pipeline and pushed through 8 (quick) / all 32 (thorough) optimiser configurations and each of the 8 passes alone and after CCP; the optimised MIR must print the same lines and end the same way as the unoptimised MIR under mirsem, with 16x the fuel (introduced non-termination is a violation), must keep main, and the optimiser must not panic. Runs whose unoptimised execution overflows i32 in + - * are dropped (left open by the language). Sub-pass firing counters (LICM, algebraic, IV elimination, strength reduction) are reported; all fire in both tiers.",
    note="Trusted: mirsem (bound to refsem/Wasm by setup selftest on tests/ programs); back ends are not re-run per pipeline (C01/C04 run them on the default configuration). IV elimination's guard rewrite is genuinely wrong for most guard forms (known finding C02-K1, pinned by the repository's loop_optimization tests): deviations of loops with update acc:=i*3 / result acc under a pipeline containing the loop pass are therefore not detected.",
    design_ref="DESIGN.md §5 C02, §10.2")
 CHECKS["C03"] = dict(
